@@ -179,8 +179,22 @@ def rep(rng):
     return rng.choice(CUR_REPS) if rng.random() < 0.8 else rng.choice(DB.std)
 
 
+_recent = []     # party names already written in the current document
+
+
 def name(rng):
-    return rng.choice(CUR_NAMES) if rng.random() < 0.8 else word(rng)
+    n = rng.choice(CUR_NAMES) if rng.random() < 0.8 else word(rng)
+    _recent.append(n)
+    del _recent[:-12]
+    return n
+
+
+def ref_name(rng):
+    """A name for a later reference: usually one that an earlier citation of this document carries."""
+    if _recent and rng.random() < 0.7:
+        n = rng.choice(_recent)
+        return n.split()[-1] if (" " in n and rng.random() < 0.3) else n
+    return name(rng)
 
 
 def full_frag(rng):
@@ -317,7 +331,7 @@ def frag(rng):
     if r < 0.50:
         return f"{name(rng)}, {num(rng)} {rep(rng)} at {num(rng)}, {num(rng)} {rep(rng)} {num(rng)}"
     if r < 0.57:
-        return f"{name(rng)}, {rng.choice(['', num(rng) + ' '])}supra{rng.choice([', at ' + num(rng), '', ',', ' at ' + num(rng)])}"
+        return f"{ref_name(rng)}, {rng.choice(['', num(rng) + ' '])}supra{rng.choice([', at ' + num(rng), '', ',', ' at ' + num(rng)])}"
     if r < 0.65:
         return rng.choice(["Id.", "Id. at " + num(rng), "Ibid.", "id., at " + num(rng) + "-" + num(rng),
                            "Id. at " + num(rng) + " (noting x)", "Id., at *" + num(rng)])
@@ -326,14 +340,14 @@ def frag(rng):
                            "29 C.F.R. § 1910.1200(a)(2)", "Fla. Stat. § 1.01 (2020)",
                            "1 Stat. 2", "Pub. L. No. 94-553"])
     if r < 0.73:
-        return f"{name(rng)} at {num(rng)}"
+        return f"{rng.choice(['', 'In ', 'As '])}{ref_name(rng)} at {num(rng)}"
     if r < 0.75:
         # a multi-word name written with different white space than in its full citation
         n = rng.choice(["Bell Atlantic Corp.", "Theatre Enterprises", "Mar. Overseas Corp.", "De la Cruz", "Acme Corp."])
         return f"{n.replace(' ', rng.choice(['  ', chr(10), ' ' + chr(10), chr(9)]))} at {num(rng)}"
     if r < 0.77:
         # a reference whose pin-cite digits are also the volume of a following citation
-        return f"{name(rng)} at {num(rng)} {rep(rng)}{rng.choice([',', ''])} {num(rng)}"
+        return f"{ref_name(rng)} at {num(rng)} {rep(rng)}{rng.choice([',', ''])} {num(rng)}"
     if r < 0.82:
         return f"In re {name(rng)} ({rng.choice(['1999', '2010', '2100'])}) {num(rng)} {rep(rng)} {num(rng)}"
     if r < 0.86:
@@ -366,6 +380,7 @@ def mutate(s, rng, k=None, classes=None, rec=None):
 
 
 def dense_doc(rng, hostile=0.5, rec=None, classes=None, maxfrag=8):
+    del _recent[:]
     parts = [frag(rng) for _ in range(rng.randint(1, maxfrag))]
     seps = [rng.choice([" ", ". ", "; ", ", ", " ", "\n", " (", ") "]) for _ in parts]
     s = "".join(p + q for p, q in zip(parts, seps))
